@@ -12,6 +12,7 @@ from .. import fakes
 from .. import gen as G
 from .. import npmirror
 from ..common import Invalid, UnexecutableGraph, Violation, fp, same_value
+from ..preempt import PreemptSim
 from ..schedsim import POLICIES, Sim
 
 ID = "C24"
@@ -40,6 +41,15 @@ def gen(rng, tier):
     scheds = [{"policy": "fifo", "sseed": 0, "release": False}]
     for _ in range(nsched - 1):
         scheds.append({"policy": rng.choice(POLICIES), "sseed": rng.getrandbits(32), "release": rng.random() < 0.5})
+    # line-granular interleaving of 2-3 in-flight reads contending for the shared SimLock (baton-passed
+    # threads; a contended acquire parks the task).  A real lock (lock=True) would really block a
+    # pre-empted holder's rival, so those programs stay task-atomic.
+    true_lock = any(s_["op"] == "from_array" and s_["args"].get("lock") is True for s_ in recipe["steps"])
+    sim_lock = any(s_["op"] == "from_array" and isinstance(s_["args"].get("lock"), str) for s_ in recipe["steps"])
+    if not true_lock and (sim_lock or rng.random() < 0.25):
+        for _ in range(1 if tier == "quick" else 3):
+            scheds.append({"policy": "preempt", "inflight": rng.choice([2, 3]), "yield_p": rng.choice([0.1, 0.3, 0.6]),
+                           "sseed": rng.getrandbits(32), "release": False})
     return {"recipe": recipe, "target": target, "knobs": knobs, "schedules": scheds,
             "fault_positions": "all" if tier == "thorough" else 4, "fseed": rng.getrandbits(32),
             "optimize_graph": rng.random() < 0.9}
@@ -102,7 +112,12 @@ def execute(case, stats, log):
         if fail is not None:
             src, k = fail
             src.fail_at = k
-        sim = Sim(random.Random(sched["sseed"]), policy=sched["policy"], release=sched["release"], prop=ID, stats=stats)
+        if sched["policy"] == "preempt":
+            sim = PreemptSim(random.Random(sched["sseed"]), inflight=sched.get("inflight", 2), yield_p=sched.get("yield_p", 0.3),
+                             prop=ID, stats=stats, locks=list(fakes._LOCKS.values()))
+            stats["fault.preempt_runs"] = stats.get("fault.preempt_runs", 0) + 1
+        else:
+            sim = Sim(random.Random(sched["sseed"]), policy=sched["policy"], release=sched["release"], prop=ID, stats=stats)
         with warnings.catch_warnings():
             warnings.simplefilter("ignore")
             with dask.config.set({"array.optimize-graph": case.get("optimize_graph", True)}):
@@ -137,8 +152,10 @@ def execute(case, stats, log):
     frng = random.Random(case["fseed"])
     if case["fault_positions"] != "all" and len(positions) > case["fault_positions"]:
         positions = frng.sample(positions, case["fault_positions"])
-    for (src, k) in positions:
-        sched = case["schedules"][0]
+    pre = [s_ for s_ in case["schedules"] if s_["policy"] == "preempt"]
+    for pi_, (src, k) in enumerate(positions):
+        # every other fault lands while other reads are in flight (error under lock contention)
+        sched = pre[0] if (pre and pi_ % 2 == 1) else case["schedules"][0]
         try:
             val = run(sched, fail=(src, k))
         except fakes.InjectedIOError:
